@@ -7,11 +7,11 @@ from .modelcheck import run_property
 def run(tier, seed, verdict):
     quick = tier != "thorough"
     runs = [mr.ModelRun("MC_Sess_quick.cfg" if quick else "MC_C02.cfg", seed, probes=("dead_ids", "reopen"),
-                        name_pools=[0, 1, 2, 4], stride=3 if quick else 40),
+                        name_pools=[0, 1, 2, 4], stride=5 if quick else 40),
             mr.ModelRun("MC_Sess_links_quick.cfg" if quick else "MC_C02_links.cfg", seed + 1, probes=("reopen",),
                         name_pools=[0, 2], stride=1),
             # link, unlink, link again on a small block: link lists that become empty in between
-            mr.ModelRun("MC_C02_relink4.cfg", seed + 2, probes=("reopen",), name_pools=[0, 1], stride=1),
+            mr.ModelRun("MC_C02_relink4.cfg", seed + 2, probes=("reopen",), name_pools=[0, 1], stride=2 if quick else 1),
             # random walks (TLC -simulate): calls repeated, undone and redone inside one session, long-lived handles warm
             mr.ModelRun("MC_SimSmall.cfg", seed + 3, probes=("dead_ids", "reopen"), name_pools=[0, 1, 2],
                         simulate="num=%d" % (40 if quick else 400), depth=32),
